@@ -4,10 +4,8 @@ package ice
 
 import (
 	"context"
-	"errors"
 	"net"
 	"net/netip"
-	"syscall"
 	"time"
 
 	"github.com/pion/transport/v4"
@@ -48,95 +46,6 @@ func verifC18IPv6Filter() {
 	verifAssert(verifNot(isSupportedIPv6Partial(net.IP(b[:4]))), "4-byte-input-is-not-a-supported-IPv6-address")
 	verifReach("done")
 }
-
-// ---- fake transport.Net ----
-
-type verifUDPConn struct {
-	verifPacketConn
-	port int
-}
-
-func (c *verifUDPConn) RemoteAddr() net.Addr                          { return nil }
-func (c *verifUDPConn) SetReadBuffer(int) error                       { return nil }
-func (c *verifUDPConn) SetWriteBuffer(int) error                      { return nil }
-func (c *verifUDPConn) Read([]byte) (int, error)                      { return 0, errVerifWrite }
-func (c *verifUDPConn) ReadFromUDP([]byte) (int, *net.UDPAddr, error) { return 0, nil, errVerifWrite }
-func (c *verifUDPConn) ReadMsgUDP(b, o []byte) (int, int, int, *net.UDPAddr, error) {
-	return 0, 0, 0, nil, errVerifWrite
-}
-func (c *verifUDPConn) Write([]byte) (int, error)                    { return 0, errVerifWrite }
-func (c *verifUDPConn) WriteToUDP([]byte, *net.UDPAddr) (int, error) { return 0, errVerifWrite }
-func (c *verifUDPConn) WriteMsgUDP(b, o []byte, a *net.UDPAddr) (int, int, error) {
-	return 0, 0, errVerifWrite
-}
-
-type verifNet struct {
-	ifaces   []*transport.Interface
-	ifErr    bool
-	outcome  func(port int) int // 0 ok, 1 busy, 2 address unavailable
-	listened []int
-	conns    []*verifUDPConn
-	nextEph  int
-}
-
-var errVerifBusy = errors.New("verif: port busy")
-
-func (n *verifNet) Interfaces() ([]*transport.Interface, error) {
-	if n.ifErr {
-		return nil, errVerifWrite
-	}
-	return n.ifaces, nil
-}
-func (n *verifNet) ListenUDP(network string, a *net.UDPAddr) (transport.UDPConn, error) {
-	port := a.Port
-	n.listened = append(n.listened, port)
-	if n.outcome != nil {
-		switch n.outcome(port) {
-		case 1:
-			return nil, errVerifBusy
-		case 2:
-			return nil, syscall.EADDRNOTAVAIL
-		}
-	}
-	if port == 0 {
-		n.nextEph++
-		port = 40000 + n.nextEph
-	}
-	c := &verifUDPConn{port: port}
-	c.local = &net.UDPAddr{IP: a.IP, Port: port, Zone: a.Zone}
-	n.conns = append(n.conns, c)
-	return c, nil
-}
-func (n *verifNet) ListenPacket(string, string) (net.PacketConn, error) {
-	return nil, transport.ErrNotSupported
-}
-func (n *verifNet) ListenTCP(string, *net.TCPAddr) (transport.TCPListener, error) {
-	return nil, transport.ErrNotSupported
-}
-func (n *verifNet) Dial(string, string) (net.Conn, error) { return nil, transport.ErrNotSupported }
-func (n *verifNet) DialUDP(string, *net.UDPAddr, *net.UDPAddr) (transport.UDPConn, error) {
-	return nil, transport.ErrNotSupported
-}
-func (n *verifNet) DialTCP(string, *net.TCPAddr, *net.TCPAddr) (transport.TCPConn, error) {
-	return nil, transport.ErrNotSupported
-}
-func (n *verifNet) ResolveIPAddr(string, string) (*net.IPAddr, error) {
-	return nil, transport.ErrNotSupported
-}
-func (n *verifNet) ResolveUDPAddr(string, string) (*net.UDPAddr, error) {
-	return nil, transport.ErrNotSupported
-}
-func (n *verifNet) ResolveTCPAddr(string, string) (*net.TCPAddr, error) {
-	return nil, transport.ErrNotSupported
-}
-func (n *verifNet) InterfaceByIndex(int) (*transport.Interface, error) {
-	return nil, transport.ErrInterfaceNotFound
-}
-func (n *verifNet) InterfaceByName(string) (*transport.Interface, error) {
-	return nil, transport.ErrInterfaceNotFound
-}
-func (n *verifNet) CreateDialer(*net.Dialer) transport.Dialer                   { return nil }
-func (n *verifNet) CreateListenConfig(*net.ListenConfig) transport.ListenConfig { return nil }
 
 type verifIfaceAddr struct {
 	iface string
